@@ -292,8 +292,13 @@ def gen_timeline(rng, nsrc, bounds=(), gaps=(), from_end=(), maxlen=5, p_err=0.2
         steps += [g - 5, g, g, g + 5, 2 * g]
     steps = [s for s in steps if s >= 0]
     evs = []
+    dense = bool(gaps) and max(gaps) >= 10 and rng.random() < 0.3
+    if dense:
+        # several differently-timed notifications inside ONE due-time window (queues with more than one
+        # pending entry: delay's re-scheduling, debounce's supersession, timeout's re-arming)
+        steps = [1, 2, 3, 5]
     for k in range(nsrc):
-        n = rng.choice([0, 1, 2, 2, 3, 3, maxlen])
+        n = rng.choice([3, 4, maxlen]) if dense else rng.choice([0, 1, 2, 2, 3, 3, maxlen])
         mode = rng.random()
         times = []
         if mode < 0.5 or not bounds:
